@@ -137,7 +137,7 @@ def replace_ref(text, oldvalue, newvalue="n/a"):
         str: The modified string with the ref replaced or removed.
     """
     # If it's not n/a (or empty, e.g. a categorical cell that selects nothing), we can just replace directly.
-    if newvalue and newvalue != "n/a":
+    if newvalue.strip() and newvalue.strip() != "n/a":
         return text.replace(oldvalue, newvalue)
 
     def _remover(match):
